@@ -15,7 +15,7 @@ RULE = ("'prim' cases: quantise_fwd / quantise_bwd on random tensors, formats an
         "fx.symbolic_trace of the same program; outputs and all input/parameter gradients are compared with an independent DSL "
         "interpreter that inserts hand-written straight-through quantisers (built on the caller's FPFormat objects) at linear / "
         "attention boundaries; FPFormat.quantise calls are logged (E, M, rounding, srbits). The lossless pair E8M23 must reproduce "
-        "the untransformed module bit for bit. 'root' cases: the root module itself is a torch.nn layer. 'repeat' cases: 12 fresh "
+        "the untransformed module bit for bit. 'root' cases: the root module itself is a torch.nn layer. Every second program case calls the transformed module AGAIN after another transformed module made its first call (TorchDynamo reset -> recompilation): same quantise-call count, bit-identical outputs and gradients. 'repeat' cases: 12 fresh "
         "instances of ONE module class transformed in one process. Range-only formats (M=23, few exponent bits) included. Non-trivial = program has a "
         "linear or attention op and a lossy format; distinct = (emitted source, format pair).")
 ASSUMPTIONS = ["FPFormat.quantise is as established by C13/C14", "torch.randint pinned by a shape-keyed deterministic source on both sides"]
